@@ -1124,7 +1124,7 @@ impl World {
                     None => "Pending",
                 };
                 // async-std backend: `JoinHandle<T>: Future<Output = Result<T, ()>>`, `Err(())` = the
-                // `Abortable` wrapper saw the abort flag (a panicking task takes the process down)
+                // `Abortable` wrapper saw the abort flag (a panic escaping a task is not reported as a value by this handle; ractor catches callback panics itself)
                 #[cfg(feature = "async-std")]
                 let r = match res {
                     Some(Ok(())) => "Ok",
